@@ -36,6 +36,7 @@ func main() {
 		}
 	}
 	nGo, nYield, nFault := 0, 0, 0
+	nChan := 0 // constructs the scheduler cannot control (channels, select)
 	// rewrite go statements and runtime.Gosched
 	var rewriteBlock func(list []ast.Stmt) []ast.Stmt
 	rewriteStmt := func(s ast.Stmt) ast.Stmt {
@@ -77,7 +78,18 @@ func main() {
 			x.Body = rewriteBlock(x.Body)
 		case *ast.CommClause:
 			x.Body = rewriteBlock(x.Body)
+		case *ast.ChanType, *ast.SelectStmt, *ast.SendStmt:
+			nChan++
+		case *ast.UnaryExpr:
+			if x.Op == token.ARROW {
+				nChan++
+			}
 		case *ast.CallExpr:
+			if sel, ok := x.Fun.(*ast.SelectorExpr); ok {
+				if id, ok := sel.X.(*ast.Ident); ok && id.Name == "time" && (sel.Sel.Name == "Sleep" || sel.Sel.Name == "After" || sel.Sel.Name == "NewTimer" || sel.Sel.Name == "Tick") {
+					nChan++
+				}
+			}
 			if sel, ok := x.Fun.(*ast.SelectorExpr); ok {
 				if id, ok := sel.X.(*ast.Ident); ok && id.Name == "runtime" && sel.Sel.Name == "Gosched" {
 					id.Name = "vcoop"
@@ -121,5 +133,8 @@ func main() {
 	// runtime import may now be unused: keep it alive
 	buf.WriteString("\nvar _ = runtime.NumCPU\n")
 	os.WriteFile(out, buf.Bytes(), 0644)
-	fmt.Printf("instrumented %s: go=%d yield=%d fault=%d\n", in, nGo, nYield, nFault)
+	fmt.Printf("instrumented %s: go=%d yield=%d fault=%d uncontrolled=%d\n", in, nGo, nYield, nFault, nChan)
+	if len(os.Args) > 3 {
+		os.WriteFile(os.Args[3], []byte(fmt.Sprintf("go=%d yield=%d fault=%d uncontrolled=%d\n", nGo, nYield, nFault, nChan)), 0644)
+	}
 }
